@@ -240,9 +240,22 @@ def main(argv):
     return rep.finish()
 
 
+def replay(path) -> int:
+    """./check C10 --replay <file>: run the recorded case again on the real code and show it next to the record."""
+    rec = json.loads(open(path).read())
+    case = rec.get("case", {})
+    print(f"property={rec.get('property')} key={rec.get('key')}\n  what: {rec.get('what')}")
+    if "t" in case and "x" in case:
+        tp = ty.gamma_type(case["t"])
+        ch = case.get("channel") or "obj"
+        now = observe_fix(ty.make_parser(tp), tp, case["x"], ch)
+        print(f"  now ({ch}): {case.get('python')}\n    -> {json.dumps(now)[:3000]}")
+        print("  recorded: " + json.dumps({k: case[k] for k in ("observation", "notes", "failed_clauses") if k in case})[:3000])
+    return 0
+
+
 if __name__ == "__main__":
     args = sys.argv[1:]
     if args and args[0] == "--replay":
-        print(open(args[1]).read())
-        sys.exit(0)
+        sys.exit(replay(args[1]))
     sys.exit(main(args))
